@@ -507,6 +507,15 @@ fn check(case: &Case) -> CheckResult {
         if reference.success() && head == ref_final_op && disk_now == ref_disk_after {
             let now_tree = wc_tree_ids(&repo_dir);
             if now_tree.is_some() && ref_wc_tree.is_some() && now_tree != ref_wc_tree {
+                if case.cmd == Cmd::SparseSet {
+                    // Known finding: `jj sparse set` publishes no operation, so a crash between
+                    // removing the files and saving the new sparse patterns is not detected as a
+                    // stale working copy; the next snapshot records the removed files as deleted.
+                    return Err(Violation::known(
+                        "C15-sparse-set-crash-records-deletions",
+                        format!("{at}: after recovery the working-copy commit has tree {now_tree:?} instead of {ref_wc_tree:?}"),
+                    ));
+                }
                 return Err(Violation::new(format!(
                     "{at}: the command's final operation was published and the files on disk are those of \
                      the completed command, but after recovery the working-copy commit has tree {} instead of \
